@@ -1,6 +1,7 @@
 // Kani harnesses injected as a child module of feel/src/temporal/date.rs (private items visible).
 use super::*;
 include!("kstubs.rs");
+include!("kstubs_feel.rs");
 
 fn ref_leap(y: i32) -> bool {
   (y % 4 == 0 && y % 100 != 0) || y % 400 == 0
